@@ -26,7 +26,7 @@ fn main() {
         let cpu = c["cpu"].as_str().unwrap();
         let op = c["op"].as_str().unwrap();
         let examined = real_addr(&c["addr"]);
-        let mut spec = DumpSpec { os: if scen == "addr" { "windows".into() } else { "linux".into() }, cpu: cpu.into(), ..DumpSpec::default() };
+        let mut spec = DumpSpec { os: if scen == "addr" || scen == "reg" { "windows".into() } else { "linux".into() }, cpu: cpu.into(), ..DumpSpec::default() };
         spec.threads.push(ThreadSpec { id: 1, ctx_ok: true, name: None, ip: 0x7000_0000, sp: 0x10000, stack_base: 0x10000, stack: vec![0u8; 64] });
         for r in c["regions"].as_array().unwrap() {
             let prot = match r["p"].as_str().unwrap() { "noaccess" => 0x01, "ro" => 0x02, "rw" => 0x04, _ => 0x20 };
@@ -40,6 +40,14 @@ fn main() {
                 _ => { info[0] = match op { "read" => 0, "write" => 1, _ => 8 }; info[1] = examined;
                        ExcSpec { tid: 1, code: 0xC000_0005, address: 0x7000_0000, nparams: 2, info, ..ExcSpec::default() } }
             }
+        } else if scen == "reg" {
+            // Windows access violation of a known kind with the instruction in the dump: mov al,[rbx+0x10] (read) or mov [rbx+0x10],al (write);
+            // the crash address is rbx + 16 and rbx itself is examined under the same access kind
+            let opc = if op == "read" { 0x8a } else { 0x88 };
+            spec.extra_memory.push((0x7000_0000, vec![opc, 0x43, 0x10, 0x90, 0x90, 0x90, 0x90, 0x90, 0x90, 0x90, 0x90, 0x90, 0x90, 0x90, 0x90, 0x90]));
+            info[0] = if op == "read" { 0 } else { 1 };
+            info[1] = examined + 16;
+            ExcSpec { tid: 1, has_ctx: true, ctx_ok: true, ctx_ip: 0x7000_0000, ctx_sp: 0x10000, code: 0xC000_0005, flags: 0, address: 0x7000_0000, nparams: 2, info, ctx_patch: vec![(144usize, examined)] }
         } else {
             // Linux SIGSEGV / SI_KERNEL at address 0: a general-protection fault; the instruction at rip is `mov rax, [rbx]`
             spec.extra_memory.push((0x7000_0000, vec![0x48, 0x8b, 0x03, 0x90, 0x90, 0x90, 0x90, 0x90, 0x90, 0x90, 0x90, 0x90, 0x90, 0x90, 0x90, 0x90]));
@@ -72,6 +80,10 @@ fn main() {
         // the scenario must have been recognised the way the specification assumes (otherwise the case is vacuous)
         if scen == "gpf" && !matches!(info.adjusted_address, Some(minidump_processor::AdjustedAddress::NonCanonical(_))) {
             rep.mismatch("bitflip:scenario-not-recognised", json!({"case": c, "adjusted": format!("{:?}", info.adjusted_address), "reason": info.reason.to_string()})); return;
+        }
+        if scen == "reg" && !info.possible_bit_flips.iter().any(|f| f.source_register.is_some()) && !want.is_empty()
+            && c["flips"].as_array().unwrap().iter().map(real_addr).any(|a| (a ^ examined).count_ones() == 1) {
+            rep.mismatch("bitflip:scenario-not-recognised", json!({"case": c, "what": "no register-derived candidate although the specification has one"})); return;
         }
         if scen == "null" && !matches!(info.adjusted_address, Some(minidump_processor::AdjustedAddress::NullPointerWithOffset(_))) {
             rep.mismatch("bitflip:scenario-not-recognised", json!({"case": c, "adjusted": format!("{:?}", info.adjusted_address)})); return;
